@@ -41,6 +41,8 @@ inductive Res where
 inductive OpState where
   | starting    -- the starting call has not returned yet
   | inflight    -- deferred: its completion is owed
+  | running     -- a repeating schedule whose callback is executing: re-armed when the callback returns, unless the
+                -- callback cancelled / closed the timer or left another schedule armed on it
   | done        -- completed (callback entered) — for repeating timers: never
   | dropped     -- its object was closed / its timer cancelled: no callback may follow
   deriving Repr, DecidableEq, Inhabited
@@ -201,7 +203,7 @@ def innerCallIsCancel (st : List Frame) (obj : Nat) : Bool :=
 def enterChecks (s : S) (o : Op) (res : Res) (n : Int) (data : List UInt8) (early : Bool) : List (Bool × String) :=
   let off := lookup s.rxOff o.obj 0
   [ -- C01: exactly once, never after close / cancel
-    (o.state == .done, "callback-twice"),
+    (o.state == .done || o.state == .running, "callback-twice"),
     (o.state == .dropped && o.kind.isTimer, "timer-callback-after-cancel-or-close"),
     (o.state == .dropped, "callback-after-close"),
     (o.kind != .post && !o.kind.isTimer && s.closed.contains o.obj, "callback-after-close"),
@@ -233,7 +235,7 @@ def enterNext (s : S) (o : Op) (res : Res) (n : Int) : S :=
   let s := if o.kind == .read || o.kind == .readAll then { s with rxOff := update s.rxOff o.obj (off + n.toNat) } else s
   let s := if o.kind == .write || o.kind == .writeAll then
       { s with txDone := update s.txDone o.obj (lookup s.txDone o.obj [] ++ opBytes o.id o.seen (n.toNat - o.seen)) } else s
-  let st' : OpState := if o.kind == .timerRep then o.state else .done
+  let st' : OpState := if o.kind == .timerRep then .running else .done
   let s := setOp s { o with state := st' }
   let s := if o.kind == .post then { s with posts := s.posts.drop 1 } else s
   { s with stack := .handler o.id (o.kind.isIO && res != .cancelled) :: bumpPoll s.stack }
@@ -252,7 +254,7 @@ def retStepWith (g : Guard) (s : S) (f : Frame) (r : Ret) : M S :=
                                     | none => true) || s.closed.contains obj), "cancel-left-operation-in-flight")] s
   | .close obj, _ =>
     -- after Close returns no callback of that object may be invoked: drop its ledger entries
-    let s := mapOps s fun o => if o.obj == obj && o.kind != .post && (o.state == .inflight || o.state == .starting)
+    let s := mapOps s fun o => if o.obj == obj && o.kind != .post && (o.state == .inflight || o.state == .starting || o.state == .running)
                                then { o with state := .dropped } else o
     .ok { s with closed := if s.closed.contains obj then s.closed else obj :: s.closed }
   | .sched op _ wasArmed closedT, .err isNil =>
@@ -264,7 +266,7 @@ def retStepWith (g : Guard) (s : S) (f : Frame) (r : Ret) : M S :=
          else if o.state == .starting then setOp s { o with state := .inflight } else s)
   | .tcancel obj, .err isNil =>
     .ok (if isNil then
-      mapOps s fun o => if o.obj == obj && o.kind.isTimer && (o.state == .inflight || o.state == .starting)
+      mapOps s fun o => if o.obj == obj && o.kind.isTimer && (o.state == .inflight || o.state == .starting || o.state == .running)
                         then { o with state := .dropped } else o
     else s)
   | .scheduled obj, .bool b =>
@@ -350,7 +352,18 @@ def stepWith (g : Guard) (s : S) : Ev → M S
       | some o => g (enterChecks s o res n data early) (enterNext s o res n)
   | .exit op =>
       match s.stack with
-      | .handler h _ :: r => if h == op then .ok { s with stack := r } else .error "handler-nesting-broken"
+      | .handler h _ :: r =>
+        if h == op then
+          -- the callback of a repeating schedule returns: the schedule continues (is armed again) unless the callback
+          -- cancelled / closed the timer (then it is `dropped`) or left another schedule armed on the same timer (the
+          -- re-arming `ScheduleOnce` fails and the repeating schedule ends silently)
+          let s := match findOp s op with
+            | some o => if o.state == OpState.running then
+                          setOp s { o with state := if (armedTimer s o.obj).isSome then .dropped else .inflight }
+                        else s
+            | none => s
+          .ok { s with stack := r }
+        else .error "handler-nesting-broken"
       | _ => .error "handler-nesting-broken"
   | .ret r =>
       match s.stack with
